@@ -1,0 +1,83 @@
+//go:build verif
+
+package schedulemanager
+
+import (
+	"reflect"
+	"sort"
+
+	"gopkg.in/robfig/cron.v2"
+)
+
+// VerifC11Entry is one row of the Entries map (ids sorted).
+type VerifC11Entry struct {
+	Crontab string
+	EntryID int
+	Ids     []string
+}
+
+// VerifC11Dump lists the Entries map sorted by crontab.
+func VerifC11Dump(m ScheduleManager) []VerifC11Entry {
+	sm := m.(*scheduleManager)
+	res := make([]VerifC11Entry, 0, len(sm.Entries))
+	for crontab, e := range sm.Entries {
+		ids := make([]string, 0, len(e.Ids))
+		for id, v := range e.Ids {
+			if v {
+				ids = append(ids, id)
+			} else {
+				ids = append(ids, id+"=false")
+			}
+		}
+		sort.Strings(ids)
+		res = append(res, VerifC11Entry{Crontab: crontab, EntryID: int(e.EntryID), Ids: ids})
+	}
+	sort.Slice(res, func(i, j int) bool { return res[i].Crontab < res[j].Crontab })
+	return res
+}
+
+// VerifC11CronEntries lists the ids of the live registrations of the cron library, in its order.
+func VerifC11CronEntries(m ScheduleManager) []int {
+	sm := m.(*scheduleManager)
+	var res []int
+	for _, e := range sm.cron.Entries() {
+		res = append(res, int(e.ID))
+	}
+	return res
+}
+
+// VerifC11Fire runs the job of one live cron registration synchronously, as the cron goroutine
+// would on a tick (the job sends its crontab to ScheduleCh and blocks until there is room).
+func VerifC11Fire(m ScheduleManager, id int) bool {
+	sm := m.(*scheduleManager)
+	e := sm.cron.Entry(cron.EntryID(id))
+	if !e.Valid() || e.Job == nil {
+		return false
+	}
+	e.Job.Run()
+	return true
+}
+
+// VerifC11ParseOK tells whether the cron library accepts the spec (the oracle for "valid crontab").
+func VerifC11ParseOK(spec string) bool {
+	_, err := cron.Parse(spec)
+	return err == nil
+}
+
+// VerifC11EntriesFor lists the ids of the live cron registrations whose schedule is the one the
+// spec parses to, i.e. the registrations a wall-clock tick of that crontab runs.
+func VerifC11EntriesFor(m ScheduleManager, spec string) []int {
+	sm := m.(*scheduleManager)
+	want, err := cron.Parse(spec)
+	if err != nil {
+		return nil
+	}
+	var res []int
+	for _, e := range sm.cron.Entries() {
+		if reflect.DeepEqual(e.Schedule, want) {
+			res = append(res, int(e.ID))
+		}
+	}
+	sort.Ints(res)
+	return res
+}
